@@ -499,8 +499,18 @@ def main():
         for fn in sorted(os.listdir(obd)) if os.path.isdir(obd) else []:
             for o in json.load(open(os.path.join(obd, fn))):
                 allrules.add("/".join(o["key"].split("/")[:2]))
+        allkeys, killed_keys = set(), set()
+        for fn in sorted(os.listdir(obd)) if os.path.isdir(obd) else []:
+            for o in json.load(open(os.path.join(obd, fn))):
+                allkeys.add(o["key"])
+        for per in KEYS.values():
+            for keys in per.values():
+                killed_keys |= set(keys)
         json.dump({"killed_by": {r: sorted(v) for r, v in sorted(byrule.items())},
-                   "rules_without_mutant": sorted(allrules - set(byrule))}, open(a.matrix, "w"), indent=1)
+                   "rules_without_mutant": sorted(allrules - set(byrule)),
+                   "obligation_keys": len(allkeys), "keys_violated_by_some_mutant": len(allkeys & killed_keys),
+                   "keys_never_violated": sorted(allkeys - killed_keys),
+                   "mutant_keys": {m: per for m, per in sorted(KEYS.items())}}, open(a.matrix, "w"), indent=1)
     if a.json:
         json.dump([{"name": r[0], "status": r[1], "detail": r[2], "exits": r[3]} for r in results], open(a.json, "w"), indent=1)
     return 0 if not any(r[1] in ("SURVIVED", "error", "partly") for r in results) else 1
